@@ -113,6 +113,12 @@ func (e *Ecosystem) NewVersion(version string) (*Version, error) {
 	return pv, nil
 }
 
+// isBareDevRelease reports whether the version is a dev release of the release
+// itself (no pre-release and no post-release segment), such as 1.0.dev1
+func (v *Version) isBareDevRelease() bool {
+	return v.prerelease == "" && v.postrelease == -1 && v.dev != -1
+}
+
 // String returns the string representation of the version
 func (v *Version) String() string {
 	return v.original
@@ -127,6 +133,15 @@ func (v *Version) Compare(other *Version) int {
 	releaseComparison := compareReleaseVersions(v.release, other.release)
 	if releaseComparison != 0 {
 		return releaseComparison
+	}
+
+	// A dev release of the bare release (1.0.dev1) sorts before everything
+	// else of that release, including its pre-releases (1.0a1): see PEP 440
+	if v.isBareDevRelease() != other.isBareDevRelease() {
+		if v.isBareDevRelease() {
+			return -1
+		}
+		return 1
 	}
 
 	preComparison := comparePrereleases(v.prerelease, v.preNumber, other.prerelease, other.preNumber)
